@@ -69,11 +69,45 @@ RESID_PROX = 1e-9
 # float64 before going to float32, so far placements must not cost any accuracy).
 PLACEMENTS = [("origin", (0, 0, 0)), ("far_5e5_4.1e6_120", (500000, 4100000, 120)),
               ("far_2^20", (2 ** 20, 2 ** 20, 2 ** 20))]
+# Configurations (audit round): every configuration maps the lattice scene x to the world S x + T with an exact
+# S = 2^e and an exact integer T, so that (y - T) / S brings every returned coordinate (and dist / S every
+# distance) back to the lattice frame without rounding; TLC judges in the lattice frame.
+#   base / far   the placements above
+#   scale        the whole scene (mesh, origins, query points; directions unchanged) scaled by 2^-6 / 2^10:
+#                a mesh a few hundredths / a few thousand units across - no answer may change
+#   dirlen       the direction vector multiplied by 2^-20, 2^-10, 2^10, 2^20 (the same ray): rays only
+#   entry        other entry points reaching the same code: Trimesh(use_embree=False).ray / .contains /
+#                .nearest.signed_distance (native containment), the function ray_triangle_id without a tree and
+#                without normals, the embree intersector with scale_to_box=False; origins / points passed as
+#                nested lists, directions as int64 arrays
+#   hist         the queries are made first (r-tree, kd-tree, embree scene, normals cached), then the mesh is
+#                moved with apply_translation / `vertices +=` / apply_scale and the SAME intersector objects
+#                (native class instance, mesh.ray, mesh.nearest) are queried in the new frame
+# `share` = (quick, thorough) fraction of the base sample run again in that configuration.
+CONFIGS = [
+    {"name": n, "T": T, "e": 0, "fam": "base" if i == 0 else "far", "share": (1, 1) if i == 0 else (1 / 10, 1 / 32)}
+    for i, (n, T) in enumerate(PLACEMENTS)] + [
+    {"name": "scale_2^-6", "T": (0, 0, 0), "e": -6, "fam": "scale", "share": (1 / 10, 1 / 64)},
+    {"name": "scale_2^10", "T": (0, 0, 0), "e": 10, "fam": "scale", "share": (1 / 10, 1 / 64)},
+    {"name": "dirlen", "T": (0, 0, 0), "e": 0, "fam": "dirlen", "share": (1 / 12, 1 / 64)},
+    {"name": "entry", "T": (0, 0, 0), "e": 0, "fam": "entry", "share": (1 / 12, 1 / 64)},
+    {"name": "hist_apply_translation", "T": (64, -32, 16), "e": 0, "fam": "hist", "share": (1 / 24, 1 / 128)},
+    {"name": "hist_vertices_iadd", "T": (-16, 48, 32), "e": 0, "fam": "hist", "share": (1 / 24, 1 / 128)},
+    {"name": "hist_apply_scale", "T": (0, 0, 0), "e": 2, "fam": "hist", "share": (1 / 24, 1 / 128)},
+]
+DIRLEN_EXP = (-20, -10, 10, 20)
 
 
 def far_slack(T):
     return 64 * 2.0 ** -52 * max(abs(x) for x in T)
+
+
+def cfg_label(c):
+    """name of the configuration of a record (the direction-length exponent is part of it)"""
+    cf = CONFIGS[c["pl"]]
+    return cf["name"] + ("_2^%d" % c["de"] if cf["fam"] == "dirlen" else "")
 CHUNK = 256
+MAX_HITS_KEPT = 64      # hits per ray and query written to a record (a ray cannot cross more triangles here)
 
 MEANING = {
     "hit_location_offlattice": "a reported hit location is not within the residual of any lattice fraction",
@@ -81,6 +115,8 @@ MEANING = {
     "hit_not_on_ray_ahead_of_origin": "a reported hit location is not o + t d with t > 0",
     "hit_not_on_reported_triangle": "a reported hit location is not in the closed reported triangle",
     "crossed_triangle_missed": "a triangle crossed through its interior (by the margin) is not reported",
+    "crossed_triangles_missed_beyond_the_first_20": "the ray crosses more than 20 triangles and exactly the 20 "
+                                                    "nearest crossings are reported",
     "hit_count_differs_from_crossings": "more hits reported than triangles crossed",
     "hit_without_crossing": "a first hit is reported for a ray that crosses nothing",
     "more_than_one_hit_for_one_ray": "multiple_hits=False returned several hits for one ray",
@@ -183,7 +219,42 @@ def mesh_table(tier):
         verts, faces = index_mesh(tris)
         out.append({"name": name, "verts": verts, "faces": faces, "closed": closed,
                     "snap_ray": SNAP_RAY, "snap_pt": SNAP_PT, "snap_d2": SNAP_D2})
+    # (audit round) the cube with vertices no face refers to: one in front of the vertex list (so that face
+    # indices are not indices into the referenced vertices), one at the centre of the cube (much nearer to interior
+    # query points than any corner), two outside.  nearest.vertex answers over all of mesh.vertices, the
+    # surface queries must not let these vertices shrink their candidate radius.
+    verts, faces = index_mesh(box((0, 0, 0), (2, 2, 2)))
+    out.append({"name": "cube_unreferenced_vertices",
+                "verts": [[3, 3, 3]] + verts + [[1, 1, 1], [5, 1, 1], [-2, -2, -2]],
+                "faces": [[i + 1 for i in f] for f in faces], "closed": True,
+                "snap_ray": SNAP_RAY, "snap_pt": SNAP_PT, "snap_d2": SNAP_D2})
+    # (audit round) eleven corner tetrahedra in a row along x (44 faces, eleven bodies; a ray along x near the
+    # axis crosses 22 triangles: more than the 20 hits the embree wrapper used to stop at).  Always sampled
+    # (never the full product); origins are also taken shifted along x.
+    comb = []
+    for j in range(COMB_PLATES):
+        comb += tet((2 * j, 0, 0), (2 * j + 1, 0, 0), (2 * j, 2, 0), (2 * j, 0, 2))
+    verts, faces = index_mesh(comb)
+    xmax = 2 * COMB_PLATES - 1
+    always = []
+    for k, qs, xs in ((4, (1, 3, 5, 7), (-7, -3)), (2, (1, 3), (-3, -1))):
+        for y, z in itertools.product(qs, repeat=2):
+            for x in xs:
+                for dx in (1, 2):
+                    always.append(((x, y, z), k, (dx, 0, 0)))
+                    always.append(((k * xmax - x, y, z), k, (-dx, 0, 0)))
+    out.append({"name": "comb_%d_tetrahedra" % COMB_PLATES, "verts": verts, "faces": faces, "closed": True,
+                "snap_ray": SNAP_RAY, "snap_pt": SNAP_PT, "snap_d2": SNAP_D2,
+                "sampled": 0.35, "xshifts": [0, 6, 12, 18], "always": always})
     return out
+
+
+COMB_PLATES = 11
+
+
+def referenced(me):
+    ref = sorted({i for f in me["faces"] for i in f})
+    return [me["verts"][i] for i in ref]
 
 
 # ------------------------------------------------------------------ enumeration
@@ -233,12 +304,17 @@ def inplane_rays(me, oblique):
 
 
 # id in known_findings.jsonl under which the lead may list the embree coplanar phantom hit
-DEVIATIONS = {"phantom_hit_coplanar_triangle": "CoplanarRayPhantomHit"}
+DEVIATIONS = {"phantom_hit_coplanar_triangle": "CoplanarRayPhantomHit",
+              # (audit round) the multi-hit loop of the embree wrapper stops after 20 hits per ray
+              "crossed_triangles_missed_beyond_the_first_20": "EmbreeMultiHitCap"}
 
 
 def ray_items(tier, mi, me, rs):
     rays = []
-    if tier == "thorough":
+    sampled = me.get("sampled")
+    shifts = me.get("xshifts", [0])
+    mult = 1.0 if not sampled else sampled * (4 if tier == "thorough" else 1)
+    if tier == "thorough" and not sampled:
         for k, origins in ((1, ORIG1), (2, ORIG2), (4, ORIG4_THOROUGH)):
             for O in origins:
                 for d in DIRS:
@@ -246,10 +322,12 @@ def ray_items(tier, mi, me, rs):
     else:
         # aimed sample: most rays pass through the bounding box of the small bodies of the mesh
         # (the far triangle / far body has every vertex outside the origin range and is not aimed at)
-        near = [v for v in me["verts"] if all(-2 <= x <= 5 for x in v)]
+        near = [v for v in referenced(me) if sampled or all(-2 <= x <= 5 for x in v)]
         lo, hi = np.min(near, axis=0).tolist(), np.max(near, axis=0).tolist()
-        for k, origins, nax, nob, nfree in ((1, ORIG1, 40, 700, 150), (2, ORIG2, 30, 450, 80),
-                                            (4, ORIG4, 30, 650, 80)):
+        for k, origins0, nax, nob, nfree in ((1, ORIG1, 40, 600, 130), (2, ORIG2, 30, 380, 70),
+                                             (4, ORIG4, 30, 560, 70)):
+            nax, nob, nfree = max(4, int(nax * mult)), max(20, int(nob * mult)), max(10, int(nfree * mult))
+            origins = [(O[0] + k * sh, O[1], O[2]) for sh in shifts for O in origins0]
             allrays = [(origins[a], k, DIRS[b]) for a, b in
                        zip(rs.randint(0, len(origins), 40 * nob), rs.randint(0, len(DIRS), 40 * nob))]
             aimed = [r for r in allrays if through_box(r[0], r[1], r[2], lo, hi)]
@@ -260,23 +338,27 @@ def ray_items(tier, mi, me, rs):
                 rays += [(origins[j], k, d) for j in rs.choice(len(origins), 10, replace=False)]
         # rays lying in the plane of a face: all of them for oblique faces (up to 600), a sample otherwise
         for oblique, cap in ((True, 600), (False, 200)):
-            fam = inplane_rays(me, oblique)
+            fam = [] if sampled else inplane_rays(me, oblique)
             rays += [fam[j] for j in rs.choice(len(fam), min(cap, len(fam)), replace=False)] if fam else []
+        rays += me.get("always", [])
         rays = sorted(set(rays))
         rs.shuffle(rays)
     return [{"kind": "ray", "mi": mi, "O": list(O), "k": k, "d": list(d)} for O, k, d in rays]
 
 
 def point_items(tier, mi, me, rs):
-    if tier == "thorough":
+    sampled = me.get("sampled")
+    mult = 1.0 if not sampled else sampled * (4 if tier == "thorough" else 1)
+    if tier == "thorough" and not sampled:
         pts = [P for P in PTS_ALL if sum(1 for x in P if x % 2) >= 2]
     else:
-        near = [v for v in me["verts"] if all(-2 <= x <= 5 for x in v)]
+        near = [v for v in referenced(me) if sampled or all(-2 <= x <= 5 for x in v)]
         lo, hi = np.min(near, axis=0) * 4, np.max(near, axis=0) * 4
-        inbox = [P for P in PTS_ODD if all(lo[a] < P[a] < hi[a] for a in range(3))]
+        odd = [(P[0] + 4 * sh, P[1], P[2]) for sh in me.get("xshifts", [0]) for P in PTS_ODD]
+        inbox = [P for P in odd if all(lo[a] < P[a] < hi[a] for a in range(3))]
         # dense inside the bounding box of the near bodies (corners, reentrant edges, the gap between bodies)
-        pts = [inbox[j] for j in rs.choice(len(inbox), min(900, len(inbox)), replace=False)]
-        pts += [PTS_ODD[j] for j in rs.choice(len(PTS_ODD), 600, replace=False)]
+        pts = [inbox[j] for j in rs.choice(len(inbox), min(int(800 * mult), len(inbox)), replace=False)]
+        pts += [odd[j] for j in rs.choice(len(odd), int(500 * mult), replace=False)]
         pts = sorted(set(pts))
     return [{"kind": "pt", "mi": mi, "P": list(P), "k": 4} for P in pts]
 
@@ -326,9 +408,9 @@ def proj_d2(x, resid):
 
 
 # ------------------------------------------------------------------ calling the real code
-def build(trimesh, me, T=(0, 0, 0)):
-    m = trimesh.Trimesh(vertices=np.array(me["verts"], dtype=np.float64) + np.array(T, dtype=np.float64),
-                        faces=np.array(me["faces"], dtype=np.int64), process=False)
+def build(trimesh, me, T=(0, 0, 0), S=1.0, **kw):
+    m = trimesh.Trimesh(vertices=np.array(me["verts"], dtype=np.float64) * S + np.array(T, dtype=np.float64),
+                        faces=np.array(me["faces"], dtype=np.int64), process=False, **kw)
     if len(m.faces) != len(me["faces"]) or len(m.vertices) != len(me["verts"]):
         raise MachineryError("Trimesh(process=False) changed the input")
     return m
@@ -350,19 +432,110 @@ class Shape(Exception):
     pass
 
 
-def query_rays(eng, o, d):
+class FunctionEngine:
+    """trimesh.ray.ray_triangle.ray_triangle_id called as a function on bare triangles: no r-tree and no
+    normals are handed over (it builds / derives its own).  Only re-packs what the function returns."""
+
+    def __init__(self, trimesh, m):
+        import trimesh.ray.ray_triangle as rt
+        self.fn = rt.ray_triangle_id
+        self.tri = np.array(m.triangles, dtype=np.float64)
+
+    def intersects_id(self, o, d, multiple_hits=True):
+        it, ir, loc = self.fn(self.tri.copy(), o, d, multiple_hits=multiple_hits)
+        return it, ir, loc
+
+    def intersects_location(self, o, d, multiple_hits=True):
+        it, ir, loc = self.fn(self.tri.copy(), o, d, multiple_hits=multiple_hits)
+        return loc, ir, it
+
+    def intersects_first(self, o, d):
+        it, ir, _ = self.fn(self.tri.copy(), o, d, multiple_hits=False)
+        out = -np.ones(len(o), dtype=np.int64)
+        out[np.asarray(ir, dtype=np.int64)] = it
+        return out
+
+    def intersects_any(self, o, d):
+        _, ir, _ = self.fn(self.tri.copy(), o, d, multiple_hits=True)
+        out = np.zeros(len(o), dtype=bool)
+        out[np.asarray(ir, dtype=np.int64)] = True
+        return out
+
+
+def setup(trimesh, me, cf, warm):
+    """Mesh and intersectors of one configuration.  Returns (mesh, engines, S, T): the world is S x + T.
+    `warm(mesh, engines)` makes the queries of the history configurations before the mesh is moved."""
+    import trimesh.ray.ray_triangle as rt
+    T = np.array(cf["T"], dtype=np.float64)
+    S = 2.0 ** cf["e"]
+    fam = cf["fam"]
+    if fam == "entry":
+        m = build(trimesh, me, use_embree=False)
+        if type(m.ray).__module__ != rt.__name__:
+            raise MachineryError("Trimesh(use_embree=False).ray is not the native intersector")
+        engines = [("native:mesh.ray", m.ray), ("native:ray_triangle_id", FunctionEngine(trimesh, m))]
+        try:
+            import embreex  # noqa: F401
+            import trimesh.ray.ray_pyembree as rp
+            engines.append(("embree:scale_to_box=False", rp.RayMeshIntersector(m, scale_to_box=False)))
+        except BaseException:
+            pass
+        return m, engines, S, T
+    if fam == "hist":
+        m = build(trimesh, me)
+        engines = [("native", rt.RayMeshIntersector(m))]
+        if type(m.ray).__module__ != rt.__name__:
+            engines.append(("embree", m.ray))           # the intersector the mesh itself carries
+        warm(m, engines)
+        before = np.array(m.vertices, dtype=np.float64)
+        if cf["name"] == "hist_apply_translation":
+            m.apply_translation(T)
+        elif cf["name"] == "hist_vertices_iadd":
+            m.vertices += T
+        elif cf["name"] == "hist_apply_scale":
+            m.apply_scale(S)
+        else:
+            raise MachineryError("unknown history " + cf["name"])
+        if not np.array_equal(np.asarray(m.vertices), before * S + T) or len(m.faces) != len(me["faces"]):
+            raise MachineryError("the mutator of %s did not move the vertices exactly" % cf["name"])
+        return m, engines, S, T
+    m = build(trimesh, me, T, S)
+    return m, engines_for(trimesh, m), S, T
+
+
+class CallersArraysModified(Exception):
+    pass
+
+
+def convert(fam, a, integral=False):
+    """input container of a configuration: the entry family passes nested lists / int64 arrays; the history
+    family hands the caller's own arrays to every call (a caller that re-uses its ray arrays), every other
+    family a fresh copy per call"""
+    if fam == "hist":
+        return a
+    if fam != "entry":
+        return a.copy()
+    return a.astype(np.int64) if integral else a.tolist()
+
+
+def query_rays(eng, o, d, fam="base"):
     """Every ray query of one engine on a batch; per ray: dict of raw results."""
     n = len(o)
-    locm, irm, itm = eng.intersects_location(o.copy(), d.copy(), multiple_hits=True)
-    loc1, ir1, it1 = eng.intersects_location(o.copy(), d.copy(), multiple_hits=False)
-    r = eng.intersects_id(o.copy(), d.copy(), multiple_hits=True)
+    O, D = (lambda: convert(fam, o)), (lambda: convert(fam, d, integral=True))
+    keep = (o.copy(), d.copy())
+    locm, irm, itm = eng.intersects_location(O(), D(), multiple_hits=True)
+    loc1, ir1, it1 = eng.intersects_location(O(), D(), multiple_hits=False)
+    r = eng.intersects_id(O(), D(), multiple_hits=True)
     idm_t, idm_r = r[0], r[1]
-    r = eng.intersects_id(o.copy(), d.copy(), multiple_hits=False)
+    r = eng.intersects_id(O(), D(), multiple_hits=False)
     id1_t, id1_r = r[0], r[1]
-    first = np.asarray(eng.intersects_first(o.copy(), d.copy()))
-    anyhit = np.asarray(eng.intersects_any(o.copy(), d.copy()))
+    first = np.asarray(eng.intersects_first(O(), D()))
+    anyhit = np.asarray(eng.intersects_any(O(), D()))
     if first.shape != (n,) or anyhit.shape != (n,):
         raise Shape("intersects_first / intersects_any shape")
+    if not (np.array_equal(keep[0], o) and np.array_equal(keep[1], d)):
+        # a query overwrote the rays it was given: the later queries above answered for other rays
+        raise CallersArraysModified("ray arrays of the caller were modified by a query")
     out = [{"locm": [], "loc1": [], "idm": [], "id1": [], "first": int(first[j]), "any": bool(anyhit[j])}
            for j in range(n)]
     for key, loc, ir, it in (("locm", locm, irm, itm), ("loc1", loc1, ir1, it1)):
@@ -389,43 +562,60 @@ def record_rays(chunk):
     trimesh = import_trimesh()
     np.random.seed(seed() + 1)
     mi, me, pl, items = chunk
-    T = np.array(PLACEMENTS[pl][1], dtype=np.float64)
-    resid = {name: r + (far_slack(T) if name == "native" else 0.0) for name, r in RESID.items()}
-    m = build(trimesh, me, T)
-    engines = engines_for(trimesh, m)
-    o = np.array([[x / it["k"] for x in it["O"]] for it in items], dtype=np.float64) + T
+    cf = CONFIGS[pl]
+    fam = cf["fam"]
+    o0 = np.array([[x / it["k"] for x in it["O"]] for it in items], dtype=np.float64)
     d = np.array([it["d"] for it in items], dtype=np.float64)
-    recs = [{"id": 0, "exc": "", "kind": "ray", "m": mi + 1, "pl": pl, "o": it["O"], "k": it["k"], "d": it["d"],
-             "laws": False, "eng": []} for it in items]
+    if fam == "dirlen":
+        d = d * np.array([2.0 ** it["de"] for it in items]).reshape((-1, 1))
+
+    def warm(m, engines):
+        for _, eng in engines:
+            query_rays(eng, o0[:8], d[:8])
+            eng.contains_points(o0[:4].copy())
+        m.nearest.on_surface(o0[:4].copy())
+        m.nearest.vertex(o0[:4].copy())
+
+    m, engines, S, T = setup(trimesh, me, cf, warm)
+    resid = {name: RESID[name.split(":")[0]] + (far_slack(T) if name.startswith("native") else 0.0)
+             for name, _ in engines}
+    o = o0 * S + T
+    recs = [{"id": 0, "exc": "", "kind": "ray", "m": mi + 1, "pl": pl, "de": it.get("de", 0), "o": it["O"],
+             "k": it["k"], "d": it["d"], "laws": False, "eng": []} for it in items]
+    pristine = (o.copy(), d.copy())
     for name, eng in engines:
         try:
-            raw = query_rays(eng, o, d)
+            raw = query_rays(eng, o, d, fam)
         except MachineryError:
             raise
         except Exception:  # noqa - attribute the exception to the rays that provoke it on their own
             raw = []
             for j in range(len(items)):
+                o[:], d[:] = pristine
                 try:
-                    raw.append(query_rays(eng, o[j:j + 1], d[j:j + 1])[0])
+                    raw.append(query_rays(eng, o[j:j + 1], d[j:j + 1], fam)[0])
                 except Exception as e:  # noqa
                     raw.append(None)
-                    recs[j]["exc"] = name + "_" + type(e).__name__
+                    recs[j]["exc"] = name.replace(":", "_") + "_" + type(e).__name__
+            o[:], d[:] = pristine
         for j, r in enumerate(raw):
             if r is None:
                 continue
             recs[j]["eng"].append({
                 "name": name,
-                "locm": [proj_hit(f, p - T, resid[name]) for f, p in r["locm"]],
-                "loc1": [proj_hit(f, p - T, resid[name]) for f, p in r["loc1"]],
-                "idm": r["idm"], "id1": r["id1"], "first": r["first"], "any": r["any"]})
+                "locm": [proj_hit(f, (p - T) / S, resid[name]) for f, p in r["locm"][:MAX_HITS_KEPT]],
+                "loc1": [proj_hit(f, (p - T) / S, resid[name]) for f, p in r["loc1"][:MAX_HITS_KEPT]],
+                "nlocm": len(r["locm"]),
+                "idm": r["idm"][:MAX_HITS_KEPT], "id1": r["id1"][:MAX_HITS_KEPT], "first": r["first"],
+                "any": r["any"]})
     return recs
 
 
-def proj_near(api, res, j, T, resid):
+def proj_near(api, res, j, T, resid, S=1.0):
     closest, dist, tid = res
     o = {"api": api, "offlattice": "", "Q": [0, 0, 0], "qd": 1, "d2n": 0, "d2d": 1, "tid": int(np.asarray(tid)[j])}
-    s = snap_vec(np.asarray(closest, dtype=np.float64)[j] - T, SNAP_PT, resid, SNAP_PT)
-    d2 = proj_d2(np.asarray(dist)[j], resid)
+    s = snap_vec((np.asarray(closest, dtype=np.float64)[j] - T) / S, SNAP_PT, resid, SNAP_PT)
+    d2 = proj_d2(np.asarray(dist)[j] / S, resid)
     if s is None:
         o["offlattice"] = "closest_point"
     elif d2 is None:
@@ -436,14 +626,18 @@ def proj_near(api, res, j, T, resid):
     return o
 
 
-def query_points(trimesh, m, engines, pts):
+def query_points(trimesh, m, engines, pts, fam="base"):
     n = len(pts)
-    res = {"cont": [(name, np.asarray(eng.contains_points(pts.copy()))) for name, eng in engines],
-           "near": [("on_surface", m.nearest.on_surface(pts.copy())),
-                    ("closest_point", trimesh.proximity.closest_point(m, pts.copy())),
-                    ("closest_point_naive", trimesh.proximity.closest_point_naive(m, pts.copy()))],
-           "sd": np.asarray(m.nearest.signed_distance(pts.copy())),
-           "vtx": m.nearest.vertex(pts.copy())}
+    P = lambda: convert(fam, pts)  # noqa: E731
+    cont = [(name, np.asarray(eng.contains_points(P()))) for name, eng in engines if hasattr(eng, "contains_points")]
+    if fam == "entry":
+        cont[0] = ("native:mesh.contains", np.asarray(m.contains(P())))       # forwards to mesh.ray.contains_points
+    res = {"cont": cont,
+           "near": [("on_surface", m.nearest.on_surface(P())),
+                    ("closest_point", trimesh.proximity.closest_point(m, P())),
+                    ("closest_point_naive", trimesh.proximity.closest_point_naive(m, P()))],
+           "sd": np.asarray(m.nearest.signed_distance(P())),
+           "vtx": m.nearest.vertex(P())}
     ok = all(v.shape == (n,) for _, v in res["cont"]) and res["sd"].shape == (n,) \
         and all(len(r) == 3 and len(r[0]) == n and len(r[1]) == n and len(r[2]) == n for _, r in res["near"]) \
         and len(res["vtx"]) == 2 and len(res["vtx"][0]) == n and len(res["vtx"][1]) == n
@@ -452,14 +646,14 @@ def query_points(trimesh, m, engines, pts):
     return res
 
 
-def fill_point(rec, res, j, T, resid):
+def fill_point(rec, res, j, T, resid, S=1.0):
     rec["cont"] = [{"name": name, "v": bool(v[j])} for name, v in res["cont"]]
-    rec["near"] = [proj_near(api, r, j, T, resid) for api, r in res["near"]]
-    sd = float(res["sd"][j])
+    rec["near"] = [proj_near(api, r, j, T, resid, S) for api, r in res["near"]]
+    sd = float(res["sd"][j]) / S
     d2 = proj_d2(sd, resid)
     rec["sd"] = {"offlattice": "" if d2 else "distance", "d2n": d2[0] if d2 else 0, "d2d": d2[1] if d2 else 1,
                  "sign": int(np.sign(sd)) if math.isfinite(sd) else 0}
-    d2 = proj_d2(res["vtx"][0][j], resid)
+    d2 = proj_d2(res["vtx"][0][j] / S, resid)
     rec["vtx"] = {"offlattice": "" if d2 else "distance", "d2n": d2[0] if d2 else 0, "d2d": d2[1] if d2 else 1,
                   "vid": int(res["vtx"][1][j])}
 
@@ -468,24 +662,31 @@ def record_points(chunk):
     trimesh = import_trimesh()
     np.random.seed(seed() + 2)        # contains_points retries along a numpy-random direction
     mi, me, pl, items = chunk
-    T = np.array(PLACEMENTS[pl][1], dtype=np.float64)
+    cf = CONFIGS[pl]
+    fam = cf["fam"]
+    pts0 = np.array([[x / it["k"] for x in it["P"]] for it in items], dtype=np.float64)
+
+    def warm(m, engines):
+        query_points(trimesh, m, engines, pts0[:6])
+        for _, eng in engines:
+            eng.intersects_first(pts0[:6].copy(), np.array([[1.0, 2.0, -1.0]] * len(pts0[:6])))
+
+    m, engines, S, T = setup(trimesh, me, cf, warm)
     resid = RESID_PROX + far_slack(T)
-    m = build(trimesh, me, T)
-    engines = engines_for(trimesh, m)
-    pts = np.array([[x / it["k"] for x in it["P"]] for it in items], dtype=np.float64) + T
-    recs = [{"id": 0, "exc": "", "kind": "pt", "m": mi + 1, "pl": pl, "p": it["P"], "k": it["k"], "laws": False}
-            for it in items]
+    pts = pts0 * S + T
+    recs = [{"id": 0, "exc": "", "kind": "pt", "m": mi + 1, "pl": pl, "de": 0, "p": it["P"], "k": it["k"],
+             "laws": False} for it in items]
     try:
-        res = query_points(trimesh, m, engines, pts)
+        res = query_points(trimesh, m, engines, pts, fam)
         for j in range(len(items)):
-            fill_point(recs[j], res, j, T, resid)
+            fill_point(recs[j], res, j, T, resid, S)
     except MachineryError:
         raise
     except Exception:  # noqa
         for j in range(len(items)):
             try:
-                m1 = build(trimesh, me, T)
-                fill_point(recs[j], query_points(trimesh, m1, engines_for(trimesh, m1), pts[j:j + 1]), 0, T, resid)
+                m1, engines1, _, _ = setup(trimesh, me, cf, warm)
+                fill_point(recs[j], query_points(trimesh, m1, engines1, pts[j:j + 1], fam), 0, T, resid, S)
             except Exception as e:  # noqa
                 recs[j]["exc"] = type(e).__name__
     return recs
@@ -534,6 +735,9 @@ def meaning(clause):
     key = clause.split(":")[-1]
     if key.startswith("offlattice_"):
         return "a reported value is not within the residual of any fraction on the lattice of exact values"
+    if clause.startswith("raised_") and "CallersArraysModified" in clause:
+        return ("a query overwrote the ray arrays it was given (history family: the caller re-uses its arrays, so "
+                "the following queries answered for other rays)")
     if clause.startswith("raised_"):
         return "the query raised on input in general position"
     return MEANING.get(key, clause)
@@ -554,16 +758,26 @@ def main(argv):
         count[key] = count.get(key, 0) + v
 
     per_mesh = {me["name"]: {} for me in meshes}
+    ref_index = [{i for f in me["faces"] for i in f} for me in meshes]
     samples, block_log = [], []
     blocks = []
     for mi, me in enumerate(meshes):
         rs = np.random.RandomState(seed() * 1000 + 12 + mi)
         base = ray_items(tier, mi, me, rs) + point_items(tier, mi, me, rs)
         items = [dict(it, pl=0) for it in base]
-        # far placements: a sixth of the quick sample each / a seeded sixteenth of the thorough product each
-        pick = rs.randint(0, 16 if big else 6, size=len(base))
-        for pl in range(1, len(PLACEMENTS)):
-            items += [dict(it, pl=pl) for it, r in zip(base, pick) if r == pl - 1]
+        # the other configurations: disjoint seeded shares of the sample (of the product in thorough)
+        pick = rs.randint(0, 640, size=len(base))
+        de = rs.randint(0, len(DIRLEN_EXP), size=len(base))
+        lo = 0
+        for pl in range(1, len(CONFIGS)):
+            cf = CONFIGS[pl]
+            hi = lo + int(round(640 * cf["share"][1 if big else 0]))
+            for it, r, e in zip(base, pick, de):
+                if lo <= r < hi and not (cf["fam"] == "dirlen" and it["kind"] == "pt"):
+                    items.append(dict(it, pl=pl, de=DIRLEN_EXP[e]) if cf["fam"] == "dirlen" else dict(it, pl=pl))
+            lo = hi
+        if lo > 640:
+            raise MachineryError("configuration shares exceed the sample")
         blocks.append((me["name"], items))
     if not big:
         blocks = [("quick", [it for _, items in blocks for it in items])]
@@ -571,7 +785,7 @@ def main(argv):
         chunks = []
         for kind in ("ray", "pt"):
             for mi, me in enumerate(meshes):
-                for pl in range(len(PLACEMENTS)):
+                for pl in range(len(CONFIGS)):
                     sel = [it for it in items if it["kind"] == kind and it["mi"] == mi and it["pl"] == pl]
                     chunks += [(mi, me, pl, sel[a:a + CHUNK]) for a in range(0, len(sel), CHUNK)]
         cases = [c for r in pmap(run_chunk, chunks, chunk=1) for c in r]
@@ -596,10 +810,12 @@ def main(argv):
                 continue
             add(kind + "_validated")
             pm[kind + "_validated"] = pm.get(kind + "_validated", 0) + 1
-            plname = PLACEMENTS[c["pl"]][0]
-            add("%s_validated@%s" % (kind, plname))
+            plname = cfg_label(c)
+            add("%s_validated@%s" % (kind, CONFIGS[c["pl"]]["name"]))
+            if plname != CONFIGS[c["pl"]]["name"]:
+                add("%s_validated@%s" % (kind, plname))
             if kind == "ray" and c["eng"] and c["eng"][0]["locm"]:
-                add("rays_with_hits@" + plname)
+                add("rays_with_hits@" + CONFIGS[c["pl"]]["name"])
             if cl.startswith("NOTE_"):
                 add(cl)
                 cl = "ok"
@@ -613,8 +829,10 @@ def main(argv):
                     add("rays_origin_strictly_inside_bounds")
                 add("rays_origin_denominator_%d" % c["k"])
                 if c["eng"]:
-                    nh = len(c["eng"][0]["locm"])
+                    nh = len(c["eng"][0]["locm"])        # native engine (first in every configuration)
                     add("rays_%s_hits" % ("0" if nh == 0 else "1" if nh == 1 else "2" if nh == 2 else "3plus"))
+                    if nh > 20:
+                        add("rays_more_than_20_hits")
                     for e in c["eng"]:
                         add("ray_observations_" + e["name"])
                         add("hit_locations_compared", len(e["locm"]) + len(e["loc1"]))
@@ -623,14 +841,21 @@ def main(argv):
                     add("points_reported_inside" if c["cont"][0]["v"] else "points_reported_outside")
                     add("containment_observations", len(c["cont"]))
                     add("closest_point_observations", len(c["near"]))
+                    for e in c["cont"]:
+                        add("containment_observations_" + e["name"])
+                    if c["vtx"]["vid"] not in ref_index[c["m"] - 1]:
+                        add("points_whose_reported_nearest_vertex_is_unreferenced")
             if cl != "ok":
                 add("rejected")
                 me = meshes[c["m"] - 1]
                 detail = {"mesh": me["name"], "vertices": me["verts"], "faces": me["faces"],
                           "meaning": meaning(cl)}
-                detail["placement"] = {"name": plname, "offset_added_to_mesh_rays_points": list(PLACEMENTS[c["pl"]][1])}
+                cf = CONFIGS[c["pl"]]
+                detail["configuration"] = {"name": plname, "family": cf["fam"],
+                                           "world_is_lattice_times": 2.0 ** cf["e"], "plus_offset": list(cf["T"]),
+                                           "direction_multiplied_by": 2.0 ** c.get("de", 0)}
                 detail.update({k: v for k, v in c.items() if k not in ("id", "m", "laws", "pl")})
-                # the clause is TLC's; the placement (an attribute of the input) is appended for far placements
+                # the clause is TLC's; the configuration (an attribute of the input) is appended to it
                 V.violation(cl if c["pl"] == 0 else cl + "@" + plname, detail, DEVIATIONS.get(cl.split(":")[-1]))
         for kind in ("ray", "pt"):
             pool = [c for c in cases if c["kind"] == kind and not verdicts.get(c["id"], "").startswith("SKIP_")
@@ -643,8 +868,27 @@ def main(argv):
     need = {"ray_validated": 2000, "pt_validated": 500, "rays_axis_aligned": 100, "rays_oblique": 1000,
             "rays_origin_strictly_inside_bounds": 50, "rays_2_hits": 100, "rays_1_hits": 100, "rays_0_hits": 100,
             "points_reported_inside": 20, "points_reported_outside": 200, "ray_SKIP_degenerate_ray": 1}
-    for plname, _ in PLACEMENTS[1:]:
-        need.update({"ray_validated@" + plname: 1000, "rays_with_hits@" + plname: 200, "pt_validated@" + plname: 300})
+    # every configuration must really have been exercised (rays, rays with hits, query points) ...
+    floor = {"far": (1000, 200, 300), "scale": (1000, 200, 300), "dirlen": (800, 100, 0), "entry": (800, 150, 250),
+             "hist": (400, 80, 120)}
+    for cf in CONFIGS[1:]:
+        r, h, p = floor[cf["fam"]]
+        need.update({"ray_validated@" + cf["name"]: r, "rays_with_hits@" + cf["name"]: h})
+        if p:
+            need["pt_validated@" + cf["name"]] = p
+    # ... every direction length, every extra entry point, the vertices no face refers to, the rays that cross
+    # more triangles than the embree wrapper's old default cap, and the two audit meshes
+    for e in DIRLEN_EXP:
+        need["ray_validated@dirlen_2^%d" % e] = 120
+    for name in ("native:mesh.ray", "native:ray_triangle_id") + (
+            ("embree:scale_to_box=False",) if "embree" in engine_names else ()):
+        need["ray_observations_" + name] = 800
+    need["containment_observations_native:mesh.contains"] = 250
+    need["points_whose_reported_nearest_vertex_is_unreferenced"] = 40
+    need["rays_more_than_20_hits"] = 8
+    for me in meshes[-2:]:
+        if per_mesh[me["name"]].get("ray_validated", 0) < 300 or per_mesh[me["name"]].get("pt_validated", 0) < 100:
+            need["records_of_" + me["name"]] = 1          # never counted: reports the mesh as short
     short = {k: n.get(k, 0) for k, v in need.items() if n.get(k, 0) < v}
     if short and not V.violations:
         raise MachineryError("enumeration degenerate: %s" % short)
@@ -661,7 +905,15 @@ def main(argv):
         "rays_origin_strictly_inside_bounds": n.get("rays_origin_strictly_inside_bounds", 0),
         "rays_by_origin_denominator": {str(k): n.get("rays_origin_denominator_%d" % k, 0) for k in (1, 2, 4)},
         "rays_by_hit_count": {k: n.get("rays_%s_hits" % k, 0) for k in ("0", "1", "2", "3plus")},
-        "ray_observations_per_engine": {e: n.get("ray_observations_" + e, 0) for e in engine_names},
+        "ray_observations_per_engine": {k[len("ray_observations_"):]: v for k, v in sorted(n.items())
+                                        if k.startswith("ray_observations_")},
+        "containment_observations_per_entry_point": {k[len("containment_observations_"):]: v
+                                                     for k, v in sorted(n.items())
+                                                     if k.startswith("containment_observations_")},
+        "rays_crossing_more_than_20_triangles": n.get("rays_more_than_20_hits", 0),
+        "points_whose_reported_nearest_vertex_is_unreferenced":
+            n.get("points_whose_reported_nearest_vertex_is_unreferenced", 0),
+        "rays_by_direction_length": {"2^%d" % e: n.get("ray_validated@dirlen_2^%d" % e, 0) for e in DIRLEN_EXP},
         "hit_locations_compared": n.get("hit_locations_compared", 0),
         "point_candidates": n.get("pt_candidates", 0),
         "points_excluded_within_margin_of_surface": n.get("pt_SKIP_point_within_margin_of_surface", 0),
@@ -671,9 +923,10 @@ def main(argv):
         "points_without_parity_direction": n.get("NOTE_no_parity_direction_in_general_position", 0),
         "containment_observations": n.get("containment_observations", 0),
         "closest_point_observations": n.get("closest_point_observations", 0),
-        "placements": [{"name": nm, "offset": list(T), "rays_validated": n.get("ray_validated@" + nm, 0),
-                        "rays_with_hits": n.get("rays_with_hits@" + nm, 0),
-                        "points_validated": n.get("pt_validated@" + nm, 0)} for nm, T in PLACEMENTS],
+        "placements": [{"name": cf["name"], "family": cf["fam"], "offset": list(cf["T"]), "scale": 2.0 ** cf["e"],
+                        "rays_validated": n.get("ray_validated@" + cf["name"], 0),
+                        "rays_with_hits": n.get("rays_with_hits@" + cf["name"], 0),
+                        "points_validated": n.get("pt_validated@" + cf["name"], 0)} for cf in CONFIGS],
         "per_mesh": per_mesh,
         "rejected": n.get("rejected", 0),
         "blocks": block_log,
@@ -682,15 +935,22 @@ def main(argv):
             "thorough: per mesh every ray (origin, direction) with origin in {-2..5}^3, the half-odd points "
             "{-3/2..9/2}^3 or the quarter points {-7/4, -3/4, .. 21/4}^3 and direction in {-2..2}^3 \\ 0, and "
             "every quarter-lattice point of {-7/4..21/4}^3 "
-            "with at least two odd-quarter coordinates; a seeded sixteenth of these rays and points again at each of "
-            "the two far placements" if big else
+            "with at least two odd-quarter coordinates (the comb mesh: four times the quick sample instead); a seeded "
+            "1/32 of these rays and points again at each of the two far placements, 1/64 at each scale, with other "
+            "direction lengths and through the other entry points, 1/128 after each history" if big else
             "quick: per mesh a seeded sample of rays (origins {-2..5}^3, half-odd {-3/2..9/2}^3 and odd-quarter "
             "{-7/4..21/4}^3, directions {-2..2}^3 \\ 0): ~1800 random (origin, direction) pairs aimed through the "
             "bounding box of the near bodies, 310 unaimed ones, all six axis directions x up to 130 origins, up to "
             "800 rays lying in the plane of a face (all of those in the plane of an oblique face, up to 600); and "
             "up to 1500 of the 3375 "
-            "odd-quarter points of {-7/4..21/4}^3 (up to 900 of them inside the bounding box of the near bodies); a sixth of these rays and points again at "
-            "each of the two far placements"),
+            "odd-quarter points of {-7/4..21/4}^3 (up to 800 of them inside the bounding box of the near bodies); the "
+            "comb mesh: 0.35 of these counts with origins also shifted along x, plus the axial rays through all the "
+            "tetrahedra from outside.  Seeded disjoint shares of this sample again in the other configurations: 1/10 "
+            "at each far placement and at each scale (2^-6, 2^10), 1/12 with the direction vector multiplied by "
+            "2^-20 / 2^-10 / 2^10 / 2^20, 1/12 through the other entry points (mesh.ray / mesh.contains / signed "
+            "distance of Trimesh(use_embree=False), ray_triangle_id as a function, embree with scale_to_box=False; "
+            "lists and int64 arrays as input), 1/24 after each history (queries, then apply_translation / "
+            "vertices += / apply_scale, then the same intersector objects queried)"),
         "snapping": ("hit locations: Fraction.limit_denominator(%d), residual 1e-9 (native engine) / 1e-4 (embree "
                      "engine, float32 tracing); closest points: denominator <= %d, squared distances: denominator "
                      "<= %d, residual 1e-9; residuals relative to max(1, |x|).  Far placements: the exact integer "
@@ -704,13 +964,16 @@ def main(argv):
         "samples": samples[:4],
     }
     return V.finish("model_checking", cov, assumptions=[
-        "lattice meshes (integer vertices in {-4..8}); lattice / half-odd ray origins, integer directions, quarter-"
+        "lattice meshes (integer vertices in {-4..8}, the comb up to 21); lattice / half-odd ray origins, integer directions, quarter-"
         "lattice query points: exact answers are fractions with small denominators (bounds checked by TLC, MeshSane)",
         "a returned float is accepted when within the residual of the exact fraction (1e-9; 1e-4 for hit locations "
         "of the float32 embree engine)",
         "agreement of the two engines is implied: both are compared with the same exact reference",
-        "translation by an exact integer offset does not change any answer: far placements are judged by TLC in "
-        "the untranslated lattice frame",
+        "translation by an exact integer offset, scaling of the scene by a power of two and the length of the "
+        "direction vector do not change any answer: those configurations are judged by TLC in the lattice frame "
+        "(offset subtracted and scale divided out exactly before snapping)",
+        "vertices no face refers to are vertices for nearest.vertex (it answers over mesh.vertices) and are not "
+        "part of the surface for every other query",
         "rays / points not in general position (decided by TLC) are excluded, as the property's quantifier does",
         "containment and the sign of the signed distance are judged on closed, outward-wound meshes only "
         "(closedness and orientation checked by TLC); on the open far-triangle mesh only rays, closest point, "
